@@ -179,7 +179,7 @@ def run(spec_case, ctx):
         kinds = {f["kind"] for c in spec["classes"] for f in c["fields"]}
         if any(f["kind"] in ("self_list", "list_ref", "set_ref") and f["target"] == c["name"] for c in spec["classes"] for f in c["fields"]):
             key_hint = "self-list-duplicate-association-column"
-        elif not (kinds & {"int", "str", "float", "bool", "opt_int", "opt_str", "opt_float", "list_str", "list_int"}):
+        elif not (kinds & {"int", "str", "float", "bool", "opt_int", "opt_str", "opt_float", "list_str", "list_int", "set_str", "set_int"}):
             key_hint = "no-builtin-field-unresolved-builtins"
         if out.get("stage") != "done":
             C["stage_fail:" + str(out.get("stage"))] += 1
